@@ -58,7 +58,8 @@ def _entries():
         "Metadata.from_raw(validate=False)": (from_raw_lazy, (), "raw"),
         "Metadata.from_email": (from_email, (EG,), "email"),
         "parse_email": (metadata.parse_email, (), "email"),
-        "parse_email(bytes)": (lambda s: metadata.parse_email(s.encode("utf-8", "surrogatepass")), (), "email"),
+        "parse_email(bytes)": (lambda b: metadata.parse_email(b), (), "emailbytes"),
+        "Metadata.from_email(bytes)": (lambda b: metadata.Metadata.from_email(b), (EG,), "emailbytes"),
         "is_normalized_name": (utils.is_normalized_name, (), "name"),
         "canonicalize_name": (utils.canonicalize_name, (), "name"),
         "canonicalize_version": (utils.canonicalize_version, (), "version"),
@@ -80,6 +81,17 @@ def gen_input(rng, kind):
         "license": lambda: GM.license_expr(rng),
         "email": lambda: GM.email_doc(rng),
     }
+    if kind == "emailbytes":
+        # a bytes document (hex), possibly with invalid UTF-8 in header values and/or the body
+        from gen import metadata as GMD
+        doc = GMD.build_doc(GMD.document(rng)) if rng.random() < 0.7 else GM.email_doc(rng).encode("utf-8", "surrogatepass")
+        doc = doc if isinstance(doc, bytes) else doc.encode("utf-8", "surrogatepass")
+        if rng.random() < 0.3:
+            i = rng.randrange(len(doc) + 1)
+            doc = doc[:i] + bytes([rng.choice([0xff, 0xfe, 0xc0, 0xe9, 0x80, 0x00])]) + doc[i:]
+        if rng.random() < 0.2:
+            doc += b"\n\n" + bytes(rng.choice([0xff, 0xe9, 0x41, 0x0a]) for _ in range(rng.randrange(1, 6)))
+        return doc.hex()
     if kind == "raw":
         if rng.random() < 0.5:
             try:
@@ -184,7 +196,7 @@ class C11(Prop):
             raise KeyError(law)
         fn, documented, kind = _entries()[inp["entry"]]
         x = inp["input"]
-        if kind == "elf":
+        if kind in ("elf", "emailbytes"):
             x = bytes.fromhex(x)
         elif kind == "raw":
             if not isinstance(x, dict):
